@@ -11,7 +11,7 @@ from vf import specfun as S
 from vf import specfun_k as K
 from vf import refmodel
 from vf.specfun import args as A, real_in, complex_in, near, integer, half_integer, choice
-from vf.specfun_k import RG, Custom, dyadic, near_int, near_half_int, near_npint, polar, polar_log, uniform, uniform_bits, \
+from vf.specfun_k import HP, RG, Custom, dyadic, near_int, near_half_int, near_npint, polar, polar_log, uniform, uniform_bits, \
     one_of, flat
 from vf.catalog import R, C, I, raw_from_float, canon
 
@@ -32,7 +32,7 @@ LEVEL_TEXT = ('exploration: ~4*10^3 (quick) / ~10^5 (thorough) evaluations of th
 LEVEL_NOTE = ('trusted base: released mpmath 1.3.0 + the tree itself at 3p+300 bits as consensus (a defect shared by both at all '
               'precisions is invisible); inputs not generated are not covered')
 TECHNIQUE = 'runtime reference-model monitor: consensus oracle on every observed function value; sign-change/index oracle for zeros'
-SHARD_TIMEOUT = {'quick': 1500, 'thorough': 4500}
+SHARD_TIMEOUT = {'quick': 2400, 'thorough': 6000}
 CASES = {'quick': 260, 'thorough': 6000}
 BUDGET = {'quick': 50, 'thorough': 420}
 NSHARDS = 16
@@ -656,6 +656,16 @@ TABLE = {
     'airyaizero': airy_zero_family('airyaizero', 0),
     'airybizero': airy_zero_family('airybizero', 1),
 }
+
+
+# high-precision stratum (2500 / 3000 / 3500 bits) for the cheap functions
+for _f in ('besselj', 'bessely', 'besseli', 'besselk'):
+    TABLE[_f] = TABLE[_f] + [HP(RG('hp/int-order/real-moderate', A(integer(-5, 12), uniform_bits(0.5, 30.0)))),
+                             HP(RG('hp/real-order/real-moderate', A(real_in(-3, 3), uniform_bits(0.5, 30.0))))]
+for _f in ('airyai', 'airybi'):
+    TABLE[_f] = TABLE[_f] + [HP(RG('hp/real/-10.5..4', A(uniform_bits(-10.5, 4.0)))), HP(RG('hp/real/4..30', A(uniform_bits(4.0, 30.0))))]
+TABLE['struveh'] = TABLE['struveh'] + [HP(RG('hp/real-order/real-moderate', A(real_in(-3, 3), uniform_bits(0.5, 30.0))))]
+TABLE['besseljzero'] = TABLE['besseljzero'] + [HP(make_bessel_zero_cell('besseljzero', 1, 'hp/int-order/index-1..10', integer(0, 5), 1, 10, 0), tmax=30)]
 
 
 def shards(tier, seed):
